@@ -6,6 +6,76 @@ from lib.common import *
 from checks.repair_common import scenarios_from_writer, pick
 
 
+def cli_part(v, tier, ev):
+    """The same statement at the command line: `mlar create` with recipients, default layers included."""
+    import random
+    import shutil
+    mlar = build_mlar()
+    wd = workdir("c07-cli")
+    src = os.path.join(wd, "in")
+    os.makedirs(os.path.join(src, "dir-with-a-telling-name"))
+    rnd = random.Random(seed() + 7)
+    files = {"dir-with-a-telling-name/secret-report-2026.txt": b"The quick brown fox jumps over the lazy dog. " * 200,
+             "payroll.bin": rnd.randbytes(150000)}
+    for n, d in files.items():
+        open(os.path.join(src, n), "wb").write(d)
+
+    def run(args, cwd=src):
+        p = subprocess.run([mlar] + args, cwd=cwd, stdout=subprocess.PIPE, stderr=subprocess.PIPE, timeout=300, preexec_fn=limit_as)
+        return p.returncode, p.stdout, p.stderr.decode(errors="replace")[-300:]
+    keys = {}
+    for k in ("k1", "k2", "k3", "kw"):
+        keys[k] = os.path.join(wd, k)
+        if run(["keygen", keys[k]])[0]:
+            raise ToolError("mlar keygen failed")
+    n = 0
+    for li, layers in enumerate(([], ["-l", "encrypt"], ["-l", "compress", "-l", "encrypt"])):
+        archs = []
+        for rep in range(2 if li else 3):
+            a = os.path.join(wd, f"a{li}-{rep}.mla")
+            rc, so, se = run(["create", "-o", a, "-p", keys["k1"] + ".pub", "-p", keys["k2"] + ".pub", "-p", keys["k3"] + ".pub"]
+                             + sorted(files) + layers)
+            if rc:
+                raise ToolError(f"mlar create failed: {se}")
+            archs.append(open(a, "rb").read())
+        rec = dict(check="cli-confidentiality", layers=" ".join(layers) or "default")
+        for b in archs:
+            n += 1
+            # "MLA" version layers: the encryption bit must be set when recipients are given
+            if not b[7] & 1:
+                v.violation(dict(rec, clause="EncryptedWhenRecipients"), dict(header=b[:16].hex()))
+                continue
+            for name, data in files.items():
+                leaks = [w for w in ([name.encode(), name.split("/")[-1].encode()] + [data[i:i + 24] for i in range(0, min(len(data), 4096), 512)]) if w in b]
+                if leaks:
+                    v.violation(dict(rec, clause="NoPlaintext"), dict(file=name, leaked=[w.hex() for w in leaks[:3]]))
+        # fresh secrets: ephemeral public key (32 bytes after the 9-byte prefix), wrapped keys, archive nonce
+        nrec = 3
+        eph = [b[9:41] for b in archs]
+        wrapped = [b[49:49 + 48 * nrec] for b in archs]
+        nonce = [b[49 + 48 * nrec:49 + 48 * nrec + 8] for b in archs]
+        for what, vals in (("EphemeralReused", eph), ("WrappedKeyReused", wrapped), ("NonceReused", nonce)):
+            if len(set(vals)) != len(vals):
+                v.violation(dict(rec, clause=what), dict(values=[x.hex() for x in vals]))
+        # any one recipient, in any position among other candidates, and no other key
+        a = os.path.join(wd, f"a{li}-0.mla")
+        want = files["payroll.bin"]
+        for cand, ok in ((["k1"], True), (["k2"], True), (["k3"], True), (["kw", "k3"], True), (["k2", "kw"], True), (["kw"], False), ([], False)):
+            args = ["cat", "-i", a]
+            for c in cand:
+                args += ["-k", keys[c]]
+            rc, so, se = run(args + ["payroll.bin"])
+            n += 1
+            if ok and (rc != 0 or so != want):
+                v.violation(dict(rec, clause="RecipientOpens"), dict(candidates=cand, rc=rc, stderr=se))
+            if not ok and (rc == 0 or want[:64] in so):
+                v.violation(dict(rec, clause="OnlyRecipients"), dict(candidates=cand, rc=rc))
+    shutil.rmtree(wd, ignore_errors=True)
+    ev["cli_observations"] = n
+    log(f"[C07] mlar create with 3 recipients (default layers, encrypt, compress+encrypt): {n} archives/openings checked")
+
+
+
 def main(tier):
     v = Verdict("C07", tier)
     ev = dict(tlc=[])
@@ -65,7 +135,8 @@ def main(tier):
         v.violation(dict(check="plaintext-scan", kind=viol["kind"], stack=viol["par"]["stack"]), dict(engine="conf", detail=viol))
     log(f"[C07] KeyWrap: {len(behs)} behaviours on real keys; freshness history of {tinfo.get('len')} creations "
         f"({n_proc} processes); {pl['runs']} archives / {pl['bytes_scanned']} bytes scanned for markers")
-    cov = dict(states=r.distinct + e.distinct + tr.distinct, transitions=r.generated + e.generated,
+    cli_part(v, tier, ev)
+    cov = dict(cli_observations=ev.get("cli_observations", 0), states=r.distinct + e.distinct + tr.distinct, transitions=r.generated + e.generated,
                traces_validated_against_impl=kw["runs"] + 1 + pl["runs"],
                samples=[behs[len(behs) // 2] if behs else None, dict(history_events=tinfo.get("len"))],
                keywrap_behaviours=len(behs), creations_in_history=tinfo.get("len"), processes=n_proc,
